@@ -5,8 +5,9 @@
 //     ECDH bytes recomputed with crypto/ecdh                                  -> CFill cases
 //  3. scripted histories through the REAL (*Session).session() and handle()
 //     over an in-memory conn with fault injection                             -> CHist cases
-//  4. a re-key while a channel is open, by driving the bodies of the four channel
-//     loops one Packet at a time                                              -> oracle only
+//  4. channels inside those histories: the bodies of the four channel loops one
+//     Packet at a time, idle ticks through the REAL next()/pick()             -> CHist cases
+//  5. the real pick() in its 16 situations                                    -> CPick cases
 //
 // Go-side oracle (the property, evaluated on the implementation): the cipher is an involution
 // and keeps the length; both ends hold the same share after every completed handshake /
@@ -206,10 +207,10 @@ func randShare() data.SharedKeys {
 }
 
 var (
-	lenHist          = map[int]int{}
-	pairCount        int
-	shortInHistory   int
-	noRekeyInChannel int
+	lenHist           = map[int]int{}
+	pairCount         int
+	shortInHistory    int
+	ticksWithoutRekey int
 )
 
 // doPair: both ends derive the share from (aPriv, bPub) and (bPriv, aPub), starting from the
@@ -502,18 +503,20 @@ type round struct {
 }
 
 type world struct {
-	id       device.ID
-	cli      *c2.Session
-	cm, sm   *c2.VerifC06Mux
-	l        *c2.Listener
-	reg      *keyReg
-	srvIdx   int
-	taint    string // the known-finding shape this history has entered ("" = none)
-	leftover []int  // payload of a data Packet that stayed queued behind a re-key announcement
-	oldShare *data.SharedKeys
-	hist     []round
-	terms    []string
-	classes  map[string]bool
+	id          device.ID
+	cli         *c2.Session
+	cm, sm      *c2.VerifC06Mux
+	l           *c2.Listener
+	reg         *keyReg
+	srvIdx      int
+	taint       string           // the known-finding shape this history has entered ("" = none)
+	leftover    []int            // payload of a data Packet that stayed queued behind a re-key announcement
+	cc          *c2.VerifC06Conn // the server connection of the open channel (nil = no channel)
+	chanRekeyed bool             // an idle tick inside a channel drew a re-key
+	oldShare    *data.SharedKeys
+	hist        []round
+	terms       []string
+	classes     map[string]bool
 }
 
 func newID() device.ID {
@@ -560,6 +563,14 @@ func (w *world) fail(what, kind string) {
 // do executes one round: one exchange, plus a second one when a data Packet stayed queued
 // behind a re-key announcement (next() sends a Packet that carries key material alone).
 func (w *world) do(r round) {
+	isChan := strings.HasPrefix(r.Kind, "chan-")
+	if !isChan && w.cc != nil {
+		w.channel(round{Kind: "chan-end"}) // the client is inside channelWrite until the channel ends
+	}
+	if isChan {
+		w.channel(r)
+		return
+	}
 	w.leftover = nil
 	w.exchange(r)
 	if w.leftover != nil && w.cli != nil {
@@ -590,6 +601,138 @@ func (w *world) drawRekey(short bool) (*com.Packet, int) {
 		return n, w.reg.id(nx.Private)
 	}
 	return nil, 0
+}
+
+// channel executes one step of an open channel by driving the bodies of the four channel loops
+// (client channelWrite/channelRead, server conn.channelRead/channelWrite) one Packet at a time, in
+// the order of the source, and appends `(events, observation)` for the model.  The client side goes
+// through the REAL next()/pick() with stateChannel set, so an idle tick is whatever pick() makes of it.
+func (w *world) channel(r round) {
+	if w.cli == nil {
+		return
+	}
+	ss := c2.VerifC06ServerSession(w.l, w.id)
+	var (
+		ev   []string
+		p, q = toBytes(r.P), toBytes(r.Q)
+		e1   error
+	)
+	r.Fault, r.Err, r.Forget, r.Short = "", "", 0, false
+	switch r.Kind {
+	case "chan-start":
+		if w.cc != nil || ss == nil || c2.VerifC06QueueLen(w.cli) > 0 {
+			return
+		}
+		cc, err := c2.VerifC06ChanOpen(w.l, ss, w.cli)
+		if err != nil {
+			out.Fail("channel: resolve failed: "+err.Error(), "channel-setup", nil)
+			return
+		}
+		w.cc, w.chanRekeyed = cc, false
+		r.P, r.Q = nil, nil
+		ev = append(ev, "ChanStart")
+	case "chan-end":
+		if w.cc == nil {
+			return
+		}
+		c2.VerifC06ChanClose(w.cc, w.cli)
+		w.cc = nil
+		r.P, r.Q = nil, nil
+		ev = append(ev, "ChanEnd")
+	case "chan-up":
+		if w.cc == nil {
+			return
+		}
+		r.Q, q = nil, nil
+		d := &com.Packet{ID: idClientData, Device: w.id, Job: uint16(2 + rng.Intn(60000))}
+		d.Write(p)
+		c2.VerifC06Queue(w.cli, d)
+		x := &fconn{}
+		if _, e1 = c2.VerifC06ChanClientWrite(w.cli, x); e1 == nil {
+			e1 = c2.VerifC06ChanServerRead(w.l, w.cc, &fconn{rbuf: x.wbuf, triggered: true})
+		}
+		ev = append(ev, "ChanUp "+vh.Bytes(p))
+	case "chan-down":
+		if w.cc == nil || ss == nil {
+			return
+		}
+		r.P, p = nil, nil
+		d := &com.Packet{ID: idServerData, Device: w.id, Job: uint16(2 + rng.Intn(60000))}
+		d.Write(q)
+		c2.VerifC06Queue(ss, d)
+		x := &fconn{}
+		if e1 = c2.VerifC06ChanServerWrite(w.l, w.cc, x); e1 == nil {
+			e1 = c2.VerifC06ChanClientRead(w.cli, &fconn{rbuf: x.wbuf, triggered: true})
+		}
+		ev = append(ev, "ChanDown "+vh.Bytes(q))
+	case "chan-tick":
+		// the client has nothing to send: up to 1500 idle periods, each one real next()/pick() call
+		// (no re-key must ever come out of it; if one does it is followed through the channel)
+		if w.cc == nil || c2.VerifC06QueueLen(w.cli) > 0 {
+			return
+		}
+		r.P, r.Q, p, q = nil, nil, nil, nil
+		k := 0
+		for i := 0; i < 1500 && e1 == nil; i++ {
+			x := &fconn{}
+			var f com.Flag
+			if f, e1 = c2.VerifC06ChanClientWrite(w.cli, x); e1 != nil {
+				break
+			}
+			e1 = c2.VerifC06ChanServerRead(w.l, w.cc, &fconn{rbuf: x.wbuf, triggered: true})
+			if f&com.FlagCrypt != 0 {
+				_, cp, _, _ := c2.VerifC06Keys(w.cli)
+				k = w.reg.id(cp)
+				w.chanRekeyed = true
+				break
+			}
+		}
+		if k == 0 {
+			ticksWithoutRekey++
+		}
+		ev = append(ev, fmt.Sprintf("ChanTick %d", k))
+	default:
+		return
+	}
+	w.hist = append(w.hist, r)
+	// ---- observation
+	_, _, cshare, cnext := c2.VerifC06Keys(w.cli)
+	var sshare data.SharedKeys
+	if ss = c2.VerifC06ServerSession(w.l, w.id); ss != nil {
+		_, _, sshare, _ = c2.VerifC06Keys(ss)
+	}
+	cg, cgi := w.cm.VerifC06Take()
+	sg, sgi := w.sm.VerifC06Take()
+	cgot, sgot := only(cg, cgi, idServerData), only(sg, sgi, idClientData)
+	w.terms = append(w.terms, fmt.Sprintf("(%s, mkObs %s %s %s %s %s %s)", vh.List(ev), vh.Bytes(cshare[:]), vh.B(cnext != nil),
+		vh.B(ss != nil), vh.Bytes(sshare[:]), byteList(cgot), byteList(sgot)))
+	w.classes[r.Kind+"//"] = true
+	// ---- oracle: inside a channel every payload arrives unchanged, no key changes, the connection's
+	// copy is the key of both Sessions
+	key := w.taint
+	if w.chanRekeyed {
+		key = "rekey-during-channel"
+	} else if key == "" {
+		key = "channel:" + r.Kind
+	}
+	desc := map[string]interface{}{"history": w.hist, "finding_shape": w.taint, "rekey_drawn_inside_channel": w.chanRekeyed}
+	if e1 != nil {
+		out.Fail("a Packet could not be moved through the channel: "+e1.Error(), key, desc)
+	}
+	if r.Kind == "chan-up" && len(p) > 0 && (len(sgot) != 1 || !bytes.Equal(sgot[0], p)) {
+		out.Fail("a payload sent by the client inside a channel did not arrive unchanged (the server connection decrypts with conn.keys)", key, desc)
+	}
+	if r.Kind == "chan-down" && len(q) > 0 && (len(cgot) != 1 || !bytes.Equal(cgot[0], q)) {
+		out.Fail("a payload sent by the server inside a channel did not arrive unchanged (the server connection encrypts with conn.keys)", key, desc)
+	}
+	if w.chanRekeyed && r.Kind == "chan-tick" {
+		out.Fail("an idle tick of a client inside a channel drew a re-key (pick() reached keyNextSync while the channel was open)", key, desc)
+	}
+	if w.cc != nil && ss != nil && w.taint == "" {
+		if cs := w.cc.VerifC06ChanConnShare(); cs != sshare || cs != cshare || cnext != nil {
+			out.Fail("inside a channel the connection's key copy, the server Session and the client Session do not hold one and the same key", key, desc)
+		}
+	}
 }
 
 // exchange executes one exchange on the real code and appends `(events, observation)` for the model.
@@ -834,7 +977,7 @@ func runHistory(rounds []round, class string) {
 	}
 	nontrivial := false
 	for _, r := range w.hist {
-		if r.Kind == "rekey" || r.Kind == "batch" || r.Kind == "hello" {
+		if r.Kind == "rekey" || r.Kind == "batch" || r.Kind == "hello" || strings.HasPrefix(r.Kind, "chan-") {
 			nontrivial = true
 		}
 	}
@@ -844,6 +987,12 @@ func runHistory(rounds []round, class string) {
 
 func rd(kind, fault string, p, q string) round {
 	return round{Kind: kind, Fault: fault, P: ints([]byte(p)), Q: ints([]byte(q))}
+}
+
+func sr2() round {
+	r := rd("rekey", "", "", "during-short-rekey")
+	r.Short = true
+	return r
 }
 
 func corpus() {
@@ -894,6 +1043,17 @@ func corpus() {
 	sr.Short = true
 	runHistory([]round{c, rd("data", "", "secret-payload", "server-task"), sr, rd("data", "", "after-short-rekey", "x"), rd("rekey", "", "", ""), rd("data", "", "p", "q")}, "hist-short-secret")
 	runHistory([]round{c, sr, sr, rd("data", "", "after-two-short-rekeys", "x"), rd("rekey", "write", "", ""), sr, rd("data", "", "p", "q")}, "hist-short-secret")
+	// channels: start, traffic both ways, idle ticks (must not draw a re-key), end, re-key after the channel, again
+	ch := func(kind, p, q string) round {
+		return round{Kind: "chan-" + kind, P: ints([]byte(p)), Q: ints([]byte(q))}
+	}
+	runHistory([]round{c, rd("data", "", "before-channel", "b"), ch("start", "", ""), ch("up", "up-1", ""), ch("down", "", "down-1"), ch("tick", "", ""),
+		ch("up", "up-after-idle-ticks", ""), ch("down", "", "down-after-idle-ticks"), ch("end", "", ""), rd("rekey", "", "", "reply"), rd("data", "", "after-channel", "a"),
+		ch("start", "", ""), ch("tick", "", ""), ch("up", "second-channel", ""), ch("tick", "", ""), ch("down", "", "second-channel-down"), rd("data", "", "channel-ended-by-exchange", "x")}, "hist-channel")
+	// a channel right after a re-key (the connection's copy must be the NEW key), short secret, write failure before it
+	runHistory([]round{c, rd("rekey", "", "", ""), ch("start", "", ""), ch("up", "fresh-key", ""), ch("down", "", "fresh-key-down"), ch("end", "", ""),
+		sr2(), ch("start", "", ""), ch("down", "", "after-short-rekey"), ch("tick", "", ""), ch("up", "after-short-rekey-up", ""), ch("end", "", ""),
+		rd("rekey", "write", "", ""), ch("start", "", ""), ch("up", "after-failed-rekey", ""), ch("down", "", "d"), ch("tick", "", ""), ch("up", "u", "")}, "hist-channel")
 	// re-registration: the server forgets, the client is told to register again
 	f := rd("data", "", "lost-on-the-floor", "")
 	f.Forget = 1
@@ -948,6 +1108,23 @@ func randHistory(maxLen int, faults bool) []round {
 			r.Forget = 1 + rng.Intn(2)
 		}
 		rs = append(rs, r)
+		if rng.Intn(6) == 0 {
+			// a channel segment
+			rs = append(rs, round{Kind: "chan-start"})
+			for j := 1 + rng.Intn(5); j > 0; j-- {
+				switch rng.Intn(5) {
+				case 0:
+					rs = append(rs, round{Kind: "chan-tick"})
+				case 1, 2:
+					rs = append(rs, round{Kind: "chan-up", P: randPayload()})
+				default:
+					rs = append(rs, round{Kind: "chan-down", Q: randPayload()})
+				}
+			}
+			if rng.Intn(2) == 0 {
+				rs = append(rs, round{Kind: "chan-end"})
+			}
+		}
 	}
 	return rs
 }
@@ -966,104 +1143,47 @@ func genHistories(thorough bool) {
 	}
 }
 
-// ---------------------------------------------------------------- 4. re-key inside a channel (oracle only)
+// ---------------------------------------------------------------- 4. pick(): when may a re-key be drawn
 
-// genChannel drives the bodies of the four channel loops (client channelWrite/channelRead, server
-// conn.channelRead/channelWrite) one Packet at a time, in the order of the source.  In a channel
-// an idle client tick (pickWait) may draw a re-key exactly like pick() does; the client swaps right
-// after the write, the server Session regenerates in notify(), but the connection keeps using
-// conn.keys, the copy taken when the connection was accepted.  Not modelled in Coq: oracle only.
-func genChannel(n int) {
-	for it := 0; it < n; it++ {
-		var sk data.KeyPair
-		sk.Fill()
-		w := &world{id: newID(), cm: new(c2.VerifC06Mux), sm: new(c2.VerifC06Mux), reg: &keyReg{idx: map[data.PrivateKey]int{}}, classes: map[string]bool{}}
-		w.l = c2.VerifC06Listener(sk, w.sm)
-		w.srvIdx = w.reg.id(sk.Private)
-		w.do(round{Kind: "connect"})
-		w.do(rd("data", "", "before-channel", "b"))
-		ss := c2.VerifC06ServerSession(w.l, w.id)
-		if w.cli == nil || ss == nil {
-			out.Fail("channel scenario: the handshake did not complete", "channel-setup", nil)
-			return
-		}
-		cc, err := c2.VerifC06ChanOpen(w.l, ss)
-		if err != nil {
-			out.Fail("channel scenario: resolve failed: "+err.Error(), "channel-setup", nil)
-			return
-		}
-		rekeyAt := 1 + rng.Intn(3)
-		var steps []map[string]interface{}
-		rekeyed := false
-		bad := ""
-		up := func(n *com.Packet) error {
-			c2.VerifC06Queue(w.cli, n)
-			x := &fconn{}
-			if err := c2.VerifC06ChanClientWrite(w.cli, x); err != nil {
-				return err
+// genPick calls the real pick() in each of the 16 situations (queue empty or not, client or server
+// Session, channel open or not, i) and emits what comes out as a CPick case.
+func genPick(reps int) {
+	var sk data.KeyPair
+	sk.Fill()
+	w := &world{id: newID(), cm: new(c2.VerifC06Mux), sm: new(c2.VerifC06Mux), reg: &keyReg{idx: map[data.PrivateKey]int{}}, classes: map[string]bool{}}
+	w.l = c2.VerifC06Listener(sk, w.sm)
+	w.srvIdx = w.reg.id(sk.Private)
+	w.do(round{Kind: "connect"})
+	ss := c2.VerifC06ServerSession(w.l, w.id)
+	if w.cli == nil || ss == nil {
+		out.Fail("pick cases: the handshake did not complete", "pick-setup", nil)
+		return
+	}
+	for rep := 0; rep < reps; rep++ {
+		for m := 0; m < 16; m++ {
+			queued, client, channel, i := m&1 != 0, m&2 != 0, m&4 != 0, m&8 != 0
+			s := ss
+			if client {
+				s = w.cli
 			}
-			return c2.VerifC06ChanServerRead(w.l, cc, &fconn{rbuf: x.wbuf, triggered: true})
-		}
-		down := func(n *com.Packet) error {
-			c2.VerifC06Queue(ss, n)
-			x := &fconn{}
-			if err := c2.VerifC06ChanServerWrite(w.l, cc, x); err != nil {
-				return err
-			}
-			return c2.VerifC06ChanClientRead(w.cli, &fconn{rbuf: x.wbuf, triggered: true})
-		}
-		for i := 0; i < 5 && bad == ""; i++ {
-			if i == rekeyAt {
-				// the idle tick of a client in channel mode: the REAL pickWait, until it draws a re-key
-				n := c2.VerifC06PickWaitRekey(w.cli, 5000)
-				if n == nil {
-					// pickWait never re-keys (any more): nothing to check inside the channel
-					steps = append(steps, map[string]interface{}{"step": "5000 idle ticks drew no re-key"})
-					noRekeyInChannel++
-					continue
-				}
-				if err := up(n); err != nil {
-					out.Fail("channel scenario: re-key Packet failed: "+err.Error(), "channel-setup", nil)
-					return
-				}
-				rekeyed = true
-				_, _, cs, cn := c2.VerifC06Keys(w.cli)
-				_, _, ssh, _ := c2.VerifC06Keys(ss)
-				steps = append(steps, map[string]interface{}{"step": "re-key in channel", "client_swapped": cn == nil, "sessions_agree": cs == ssh, "conn_copy_is_current": cc.VerifC06ChanConnShare() == ssh})
-				if cn != nil || cs != ssh {
-					bad = "after a re-key inside a channel the two Sessions hold different shares"
-				}
+			got, pan := -1, ""
+			func() {
+				defer func() {
+					if x := recover(); x != nil {
+						pan = fmt.Sprint(x)
+					}
+				}()
+				got = c2.VerifC06PickObs(s, queued, channel, i, 3000)
+			}()
+			desc := map[string]interface{}{"fn": "(*Session).pick", "queued": queued, "client": client, "channel": channel, "i": i, "observed": got}
+			if pan != "" {
+				out.Fail("pick() panicked: "+pan, "pick-panic", desc)
 				continue
 			}
-			p, q := rng.Bytes(1+rng.Intn(100)), rng.Bytes(1+rng.Intn(100))
-			d := &com.Packet{ID: idClientData, Device: w.id, Job: uint16(2 + rng.Intn(60000))}
-			d.Write(p)
-			e1 := up(d)
-			e := &com.Packet{ID: idServerData, Device: w.id, Job: uint16(2 + rng.Intn(60000))}
-			e.Write(q)
-			e2 := down(e)
-			cg, cgi := w.cm.VerifC06Take()
-			sg, sgi := w.sm.VerifC06Take()
-			cgot, sgot := only(cg, cgi, idServerData), only(sg, sgi, idClientData)
-			okUp := e1 == nil && len(sgot) == 1 && bytes.Equal(sgot[0], p)
-			okDown := e2 == nil && len(cgot) == 1 && bytes.Equal(cgot[0], q)
-			steps = append(steps, map[string]interface{}{"step": "data both ways", "after_rekey": rekeyed, "server_saw_client_payload": okUp, "client_saw_server_payload": okDown})
-			if !okUp || !okDown {
-				bad = "a payload sent inside a channel did not arrive unchanged"
+			out.Add(fmt.Sprintf("CPick %s %s %s %s %d", vh.B(queued), vh.B(client), vh.B(channel), vh.B(i), got), "pick", !queued, desc)
+			if client && channel && got == 2 {
+				out.Fail("pick() drew a re-key announcement for a client inside a channel", "pick-draws-rekey-in-channel", desc)
 			}
-		}
-		key := "channel-no-rekey"
-		if rekeyed {
-			key = "rekey-during-channel"
-		}
-		desc := map[string]interface{}{"scenario": "connect; data; channel opened; data both ways until step rekey_at; re-key drawn by the idle tick; data both ways", "rekey_at": rekeyAt, "steps": steps}
-		out.Count("channel-rekey", fmt.Sprintf("rekey-at-%d", rekeyAt), true)
-		if bad != "" {
-			out.Fail(bad+" (the server connection keeps decrypting and encrypting with conn.keys, the copy taken before the re-key)", key, desc)
-		}
-		// the channel ends; the next ordinary exchange takes a fresh copy and works again
-		if w.taint == "" {
-			w.do(rd("data", "", "after-channel", "a"))
 		}
 	}
 }
@@ -1074,23 +1194,24 @@ func main() {
 		"XorOp/KeyCrypt on buffers of length 0..300 (grid around 65/130/195) with shares and keys of length 0..69; real P-521 pairs through "+
 			"Fill/FillPublic/FillPrivate/Sync/fillShared on both roles from zero, patterned and random previous shares, incl. forced short secrets; "+
 			"histories (connect, data, re-key, re-key with a data Packet queued behind it, re-keys redrawn until the ECDH secret is short, write fault, reply lost "+
-			"before/after the server, server forgets/restarts) through the real session()/handle(); re-key inside a channel (oracle only); "+
+			"before/after the server, server forgets/restarts, channels with traffic both ways and idle ticks) through the real session()/handle()/pick() and the channel loop bodies; "+
+			"pick() in its 16 situations; "+
 			"distinct = distinct Coq case term; non-trivial = non-empty buffer and key / any pair / a history with a re-key or re-registration")
 	out.ShardSize = 40
 	rng = vh.NewRand(fl.Seed)
 	thorough := fl.Tier == "thorough"
-	nc := 3
+	np := 2
 	if thorough {
-		nc = 40
+		np = 20
 	}
-	genChannel(nc) // first: the representative of every finding comes before the bulk of the random fault histories
+	genPick(np)
 	t0 := time.Now()
 	genHistories(thorough)
 	t1 := time.Now()
 	genPairs(thorough)
 	t2 := time.Now()
 	genXor(thorough)
-	out.Extra("channel_scenarios_without_rekey", noRekeyInChannel)
+	out.Extra("channel_idle_tick_rounds_without_rekey", ticksWithoutRekey)
 	out.Extra("ecdh_x_length_histogram", lenHist)
 	out.Extra("pairs", pairCount)
 	out.Extra("short_secrets_forced_inside_histories", shortInHistory)
